@@ -187,8 +187,10 @@ def run(placed, settings, name, depth=2, want_str=False, limit=600, use_cache=Tr
         doc = wc.placed["doc"]
         if "instances" in wc.placed:
             # the family supplies its own candidates (C04: serialized values of the original Rust type)
+            jorc = oracle.Oracle(doc, clip_i64=clip_i64) if wc.placed.get("judge") else None
             for v in wc.placed["instances"]:
-                rec = {"v": v, "flags": [], "valid": True, "res": None, "str": {}}
+                valid = True if jorc is None else (jorc.valid_def(wc.placed["target"], v) if wc.placed["target"] else jorc.valid(v))
+                rec = {"v": v, "flags": [], "valid": valid, "res": None, "str": {}}
                 wc.instances.append(rec)
                 probes.append((wc.key, wc.ident, "de", json.dumps(v)))
                 index.append((rec, "de"))
